@@ -3,6 +3,8 @@ from specs import snapbody, c18
 
 LEVEL = 'proof'
 UNITS = c18.UNITS + snapbody.load_units('C18')
+from specs import families as _families
+UNITS = _families.with_families('C18', UNITS)
 BOUNDED = [{'name': 'C18.e2e', 'script': 'bounded/c18_e2e.py', 'timeout': 900, 'bound': 'plain and encrypted repository, owner and shared-key user: listings + restore with the cache disabled vs. warm, every entry cut to 0 / 1 / half / len-1 bytes, one entry missing, an extra stale entry, two entries swapped, cache shared with another key and another repository, stale after a foreign delete; second run on the repaired cache'}]
 TRUSTED = [
     'vf symbolic executor (/verif/vf): encoding of the Python subset (DESIGN 2.2)',
